@@ -88,6 +88,10 @@ struct Script
 {
     Config cfg;
     std::vector<Op> ops;
+    // explicit schedule prefix (task id, quantum) used instead of the policy while it lasts; after it the policy
+    // (cfg.sched_override / cfg.policy) takes over.  Written by the minimiser into replay files.
+    std::vector<std::pair<int, int64_t>> sched;
+    bool record_sched = false;  // not serialised: ask run_world to return the decisions it took
 };
 
 std::string script_to_text(const Script& s);
@@ -114,6 +118,7 @@ struct RunResult
     bool infra_error = false;
     std::string infra_detail;
     std::vector<std::string> transcript_tail;  // for samples
+    std::vector<std::pair<int, int64_t>> sched_rec;  // decisions taken (only when Script::record_sched)
 };
 
 // runs one world; everything is derived from the script (which embeds its run seed)
